@@ -196,6 +196,7 @@ func runC10(cfg *Config) *Report {
 		if nestKind != 0 {
 			desc += " " + nestDesc
 		}
+		begin(i, desc)
 		seqTr := observeTrace(seq(plain()...)(st0), budget)
 		runs := []*Trace{}
 		for rep3 := 0; rep3 < 3; rep3++ {
